@@ -68,6 +68,8 @@ impl SecondaryTransaction {
         read_only: bool,
         update: bool,
     ) -> StorageResult<Self> {
+        #[cfg(risinglight_verif)]
+        crate::verif::gate("txn.start.before_pin").await;
         // pin a snapshot at version manager
         let pin_version = table.version.pin();
         #[cfg(risinglight_verif)]
